@@ -4,6 +4,7 @@ import (
 	"encoding/json"
 	"fmt"
 	"sort"
+	"strings"
 
 	"verif/spec"
 )
@@ -39,6 +40,8 @@ func c18Base() *spec.Program {
 	// selected types whose names extend the name of a type that will fail, declared before and after it
 	m("RootAExt", nil, f("AxStr", 1, spec.KString), f("AxNum", 2, spec.KInt64))
 	m("RootA", nil, f("AStr", 1, spec.KString), f("AShared", 2, spec.KMessage, ref("Shared")), f("AMode", 3, spec.KEnum, ref("Mode")))
+	// reaches Shared through a field with the same name as RootA's
+	m("RootF", nil, f("FStr", 1, spec.KString), f("AShared", 2, spec.KMessage, ref("Shared")))
 	m("RootB", nil, f("BStr", 1, spec.KString), f("BItems", 2, spec.KMessage, ref("Shared"), list), f("BMap", 3, spec.KString, mp))
 	m("RootC", nil, f("CStr", 1, spec.KString), f("CVals", 2, spec.KMessage, ref("MV"), mp, nn))
 	m("RootD", []string{"Pick"}, f("DStr", 1, spec.KString), f("PickS", 2, spec.KString, oo("Pick")), f("PickO", 3, spec.KMessage, ref("OB"), oo("Pick")))
@@ -48,7 +51,7 @@ func c18Base() *spec.Program {
 	m("Clean", nil, f("Name", 1, spec.KString), f("Count", 2, spec.KInt64), f("Inner", 3, spec.KMessage, ref("Inner"), nn))
 	m("Unselected", nil, f("UStr", 1, spec.KString))
 	p.Config = spec.Config{
-		Types:          []string{"RootAExt", "RootA", "RootB", "RootC", "RootD", "RootE", "RootBExt", "RootD2", "Clean"},
+		Types:          []string{"RootAExt", "RootA", "RootF", "RootB", "RootC", "RootD", "RootE", "RootBExt", "RootD2", "Clean"},
 		ComputedFields: []string{"Clean.Count"},
 		NameOverrides:  map[string]string{"Clean.Name": "clean_name"},
 	}
@@ -116,9 +119,11 @@ type badPos struct {
 var badPositions = []badPos{
 	{name: "direct-last", msg: "RootA", pathKeys: func(f string) []string { return []string{"RootA." + f} }},
 	{name: "direct-first", msg: "RootB", first: true, pathKeys: func(f string) []string { return []string{"RootB." + f} }},
-	{name: "nested+list-element", msg: "Shared", pathKeys: func(f string) []string { return []string{"RootA.AShared." + f, "RootB.BItems." + f} }},
+	{name: "nested+list-element", msg: "Shared", pathKeys: func(f string) []string {
+		return []string{"RootA.AShared." + f, "RootF.AShared." + f, "RootB.BItems." + f}
+	}},
 	{name: "depth-2", msg: "Inner", first: true, pathKeys: func(f string) []string {
-		return []string{"RootA.AShared.SInner." + f, "RootB.BItems.SInner." + f, "Clean.Inner." + f, "RootBExt.BxInner." + f}
+		return []string{"RootA.AShared.SInner." + f, "RootF.AShared.SInner." + f, "RootB.BItems.SInner." + f, "Clean.Inner." + f, "RootBExt.BxInner." + f}
 	}},
 	{name: "map-value", msg: "MV", pathKeys: func(f string) []string { return []string{"RootC.CVals." + f} }},
 	{name: "oneof-branch-message", msg: "OB", pathKeys: func(f string) []string { return []string{"RootD.PickO." + f} }},
@@ -201,6 +206,23 @@ func C18RealCases(seed uint64, tier string) ([]*Case, map[string]int) {
 					kinds["excluded/path-key"]++
 					cases = append(cases, &Case{Property: "C18", Clause: "excluded/path-key/" + k.name + "@" + pos.name, Seed: seed, Tier: tier, Program: pa,
 						Ref: refRun(b), Run: runFrom(pa.Config.Render(nil, nil)), Expect: Expect{Kind: "atomic", Roots: p.Config.Types}})
+					// a path key restores only the occurrence it names: every other occurrence still drops its root
+					if len(keys) > 1 {
+						for ki, key := range keys {
+							pp := cloneProgram(p)
+							pp.Config.ExcludeFields = append(pp.Config.ExcludeFields, key)
+							restored := key[:strings.Index(key, ".")]
+							var still []string
+							for _, a := range aff {
+								if a != restored {
+									still = append(still, a)
+								}
+							}
+							kinds["excluded/partial-path-key"]++
+							cases = append(cases, &Case{Property: "C18", Clause: fmt.Sprintf("excluded/partial-path-key#%d/%s@%s", ki, k.name, pos.name), Seed: seed, Tier: tier, Program: pp,
+								Ref: refRun(b), Run: runFrom(pp.Config.Render(nil, nil)), Expect: Expect{Kind: "atomic", Roots: p.Config.Types, Affected: still}})
+						}
+					}
 				}
 			}
 		}
